@@ -33,8 +33,18 @@ def _balanced(s, i, open_, close):
     depth = 0
     j = i
     n = len(s)
+    last = ""           # last significant character: a '/' after an operator or opener starts a /regex/, after an operand it divides
     while j < n:
         c = s[j]
+        if c == "/" and (last == "" or last in "(~=,!<>*" or last.isalpha() and s[max(0, j - 4):j].strip().upper().endswith(("AND", "OR", "NOT", "IN", "LIKE"))):
+            k = s.find("/", j + 1)
+            nl = s.find("\n", j + 1)
+            if k > 0 and (nl < 0 or k < nl):
+                j = k + 1
+                last = "/"
+                continue
+        if not c.isspace():
+            last = c
         if c in "\"'`":
             k = j + 1
             while k < n and s[k] != c:
